@@ -15,7 +15,7 @@ import (
 
 func c10Prelude() []string {
 	return []string{
-		"x = [0]", "y = [0]", "z = [0]", "sx = \"-\"", "sy = \"-\"", "sz = \"-\"", "keep = []",
+		"x = [0]", "y = [0]", "z = [0]", "t = 0", "sx = \"-\"", "sy = \"-\"", "sz = \"-\"", "keep = []",
 		"lit = () -> [1, 2, 3]",
 		"app = (a) -> a + [5]",
 		"mkc = (a) -> () -> a + [6]",
@@ -50,6 +50,9 @@ func c10Ops() []string {
 		"sz = sy + \"q\"",
 		"sx = sx + sy",
 		"z = [x[0:2], y]",
+		"t = x == [1.0, 2.0, 3.0]",
+		"t = [lit() == [1.0, 2, 3.0], x != y, keep == [y]]",
+		"t = [x, y] == [[1.5, 2, 3], z]",
 		"y = x + [8]",
 		"z = x + [9]",
 		"x = pair(10)",
@@ -140,7 +143,7 @@ func init() {
 	core.Register(&core.Check{
 		ID:    "C10",
 		Level: "model_checking",
-		Rule: "explicit-state search over all sequences of length <= 3 (quick) / 4 (thorough) of 43 array/string operations on the globals x, y, z, sx, sy, sz, keep (literals at top level, inside a function called repeatedly and inside a loop; every slice x[i:j]; concatenations of slices, of slices of slices, nested arrays; passing to a concatenating function; iterating with elems; capture in a closure and in a generator that concatenate; string analogues). After every operation the observer [x, y, z, sx, sy, sz, keep, lit(), c(), pair(1), trip(2)] is evaluated on the real VM and on the reference model (which copies always): every variable not assigned, every earlier result and every literal must still print as before. " +
+		Rule: "explicit-state search over all sequences of length <= 3 (quick) / 4 (thorough) of 46 array/string operations on the globals x, y, z, sx, sy, sz, keep (literals at top level, inside a function called repeatedly and inside a loop; every slice x[i:j]; concatenations of slices, of slices of slices, nested arrays; passing to a concatenating function; iterating with elems; capture in a closure and in a generator that concatenate; string analogues). After every operation the observer [x, y, z, sx, sy, sz, keep, lit(), c(), pair(1), trip(2)] is evaluated on the real VM and on the reference model (which copies always): every variable not assigned, every earlier result and every literal must still print as before. " +
 			"states = distinct (renderings, len/cap of every live array, backing-array sharing relation) read through the value hook; transitions = operations applied; distinct_nontrivial = sequences after which two live arrays share a backing array with spare capacity (so an in-place append could have collided)",
 		Assumptions: []string{"reference model refsem copies on every operation", "array layout is read through value.VerifArrayInfo (size of value.Type assumed 24 bytes for the overlap test)"},
 		Exec: func(payload string) (string, string) {
